@@ -133,6 +133,8 @@ async def repository(app, face, certs, behaviour, eng):
             n = tuple(bytes(c) for c in enc.parse_interest(wire)[0])
             face.requests.append(n)
             b = behaviour.get(n)
+            if isinstance(b, list):
+                b = b.pop(0) if b else None          # one answer per attempt
             if b == 'nack':
                 await app._receive(0x64, enc.make_network_nack(wire, 150))
             elif b == 'silence':
@@ -431,6 +433,11 @@ def build_chain(eng, D, kinds, fault, link, tk=0):
             wi = tobytes(wi2)
         if link == j - 1 and fault in ('cert-nack', 'cert-timeout'):
             W['behaviour'][_tup(ni)] = 'nack' if fault == 'cert-nack' else 'silence'
+        if link == j - 1 and fault in ('timeout-then-forged', 'nack-then-forged'):
+            # two deviations at one link: the first request for the certificate gets no answer (or a Nack), any later
+            # request is answered with a certificate whose signature does not verify
+            W['behaviour'][_tup(ni)] = ['silence' if fault == 'timeout-then-forged' else 'nack', None, None, None]
+            wi = corrupt_sig(eng, wi)
         W['certs'][_tup(ni)] = wi
         signers[i] = si
         pubs[i] = pubi
@@ -800,7 +807,7 @@ def cases(tier, seed):
         for v in ('valid', 'corrupt', 'wrong-name', 'signed-by-other-key'):
             cs.append(('ctor', {'anchor_kind': kind, 'variant': v}))
     deep_faults = ['none', 'sig-corrupt', 'issuer-not-allowed', 'wrong-name-shape', 'key-substituted', 'cert-nack',
-                   'cert-timeout', 'unsigned', 'self-loop', 'name-outside-schema']
+                   'cert-timeout', 'unsigned', 'self-loop', 'name-outside-schema', 'timeout-then-forged', 'nack-then-forged']
     kind_sets = {1: [['rsa'], ['ecdsa'], ['hmac']], 2: [['rsa', 'ecdsa'], ['ecdsa', 'hmac']],
                  3: [['ecdsa', 'rsa', 'ecdsa'], ['hmac', 'ecdsa', 'rsa']], 4: [['rsa', 'ecdsa', 'hmac', 'ecdsa']]}
     for D in (1, 2, 3) if tier == 'quick' else (1, 2, 3, 4):
@@ -811,7 +818,7 @@ def cases(tier, seed):
                 for link in range(D):
                     if f in ('none', 'name-outside-schema') and link > 0:
                         continue
-                    if f in ('key-substituted', 'cert-nack', 'cert-timeout') and link >= D - 1:
+                    if f in ('key-substituted', 'cert-nack', 'cert-timeout', 'timeout-then-forged', 'nack-then-forged') and link >= D - 1:
                         continue               # the certificate behind the last link is the anchor itself
                     cs.append(('deep', {'depth': D, 'kinds': kinds, 'fault': f, 'link': link}, {'weight': 5}))
             for link in range(D):
